@@ -125,6 +125,7 @@ func (s *recSocket) Broadcast() *adapter.BroadcastOperator                  { re
 func (s *recSocket) Disconnect(close bool)                                  {}
 
 type recStore struct {
+	hook    func(sid adapter.SocketID) // called (without the lock) at the start of every delivery
 	mu      sync.Mutex
 	sockets map[adapter.SocketID]*recSocket
 	got     map[adapter.SocketID][][]byte // first buffer of every delivery
@@ -134,6 +135,9 @@ func newRecStore() *recStore {
 	return &recStore{sockets: map[adapter.SocketID]*recSocket{}, got: map[adapter.SocketID][][]byte{}}
 }
 func (r *recStore) SendBuffers(sid adapter.SocketID, buffers [][]byte) bool {
+	if r.hook != nil {
+		r.hook(sid)
+	}
 	r.mu.Lock()
 	defer r.mu.Unlock()
 	if _, ok := r.sockets[sid]; !ok {
@@ -509,7 +513,7 @@ func genBoundary(emit func(*sessCase)) {
 func sessionMain(args []string) error {
 	fs := flag.NewFlagSet("session", flag.ExitOnError)
 	seed := fs.Uint64("seed", 1, "")
-	mode := fs.String("mode", "random", "random|timed|exhaustive|boundary|live")
+	mode := fs.String("mode", "random", "random|timed|exhaustive|boundary|live|conc")
 	n := fs.Int("n", 500, "number of random histories")
 	length := fs.Int("len", 4, "history length (exhaustive)")
 	maxOps := fs.Int("maxops", 25, "max ops per random history")
@@ -526,6 +530,8 @@ func sessionMain(args []string) error {
 	switch *mode {
 	case "live":
 		return sessionLive(out, *seed, *n, *bin, *par)
+	case "conc":
+		return c08Conc(out, *seed, *n)
 	case "exhaustive":
 		genExhaustive(*length, func(c *sessCase) { runSessCase(c); out.Put(c) })
 		return nil
